@@ -12,11 +12,32 @@ package executor
 
 //@ func NewDefaultExecutor
 //@   nomod
-//@   ensures result#1 == nil ==> result != nil && fresh(result)
+//@   ensures result#1 == nil ==> result != nil && fresh(result) && result.interp != nil
 //@   ensures !exitOK(result#1)
 
+//@ func mergeEnv
+//@   nomod
+
 //@ func (*DefaultExecutor).Execute
-//@   requires e != nil && job != nil && job.Vars != nil && job.Env != nil
-//@   modifies runN, runJob, runErr, job.Dir, e.*
+//@   ghostlocal tctx context.Context
+//@   requires e != nil && e.interp != nil && job != nil && job.Vars != nil && job.Env != nil
+//@   modifies runN, runJob, runErr, job.Dir, e.*, interp.Runner.Dir, interp.Runner.Env, bufLen
+//@   ensures e.interp == old(e.interp)
+//@   ensures #C09.dir-fallback runN == old(runN) + 1 && old(job.Dir) == "" ==> job.Dir == old(e.dir)
+//@   ensures #C09.dir-kept old(job.Dir) != "" ==> job.Dir == old(job.Dir)
+//@   callsite Parse
+//@     requires #C10.render-before-parse calls(RenderString) == 1
+//@   callsite WithTimeout
+//@     requires #C13.deadline-derived-from-caller-context arg0 == ctx0 && job.Timeout != nil
+//@     ghost tctx = result
+//@   callsite Run
+//@     requires #C10.render-first calls(RenderString) == 1 && calls(Parse) == 1 && calls(Run) == 0
+//@     requires #C13.runs-under-deadline (job.Timeout != nil ==> calls(WithTimeout) == 1 && arg0 == tctx) && (job.Timeout == nil ==> arg0 == ctx0)
+//@     requires #C09.runs-in-job-dir e.interp.Dir == job.Dir
+//@     ghost runJob[runN] = job
+//@     ghost runErr[runN] = result
+//@     ghost runN = runN + 1
+//@   callsite funcvalue:cancelFn
+//@     assume true // context.CancelFunc: releases the timer; no effect on modelled state
 //@   ensures #at-most-one-run (runN == old(runN) && result#1 != nil && !exitOK(result#1)) || (runN == old(runN) + 1 && runJob[old(runN)] == job && runErr[old(runN)] == result#1)
 //@   ensures #log-prefix forall i int :: i < old(runN) ==> runJob[i] == old(runJob[i]) && runErr[i] == old(runErr[i])
